@@ -20,7 +20,7 @@ import (
 // typed Go value, so that dropping a key during minimisation drops its value.
 type TrieSpec struct {
 	Keys   [][]byte `json:"keys"`
-	ValIDs []int64  `json:"val_ids,omitempty"` // nil => filter mode (no values)
+	ValIDs []int64  `json:"val_ids"` // nil => filter mode (no values)
 	Enc    string   `json:"enc"`
 	// Dedup, InnerPrefix, LeafPrefix, Complete: -1 nil, 0 explicit false, 1 true
 	Opt [4]int8 `json:"opt"`
